@@ -1,0 +1,19 @@
+//! Re-exports of crate-private QPACK items for out-of-tree verification
+//! harnesses. Compiled only with `--cfg hyperium_h3_verif`; adds no behaviour.
+
+pub use super::block::{
+    HeaderBlockField, HeaderPrefix, Indexed, IndexedWithPostBase, Literal, LiteralWithNameRef,
+    LiteralWithPostBaseNameRef,
+};
+pub use super::parse_error::ParseError;
+pub use super::prefix_int::{
+    decode as prefix_int_decode, encode as prefix_int_encode, Error as PrefixIntError,
+};
+pub use super::prefix_string::{
+    decode as prefix_string_decode, encode as prefix_string_encode, verif_code, verif_read_bits,
+    verif_write_bits, BitWindow,
+    Error as PrefixStringError, HpackStringDecode, HpackStringEncode, HuffmanDecodingError,
+    HuffmanEncodingError,
+};
+pub use super::static_::{Error as StaticTableError, StaticTable};
+pub use super::vas::{Error as VasError, VirtualAddressSpace};
